@@ -413,7 +413,7 @@ def check_match(r) -> list[Fail]:
         k += 1
         chosen.append(nx_)
         frontier = sorted({w for c in chosen for w in adj[c]} - set(chosen))
-    if r.get("two_piece") and n >= 4:
+    if r.get("two_piece") and 4 <= n <= 14:      # (small sources only: the brute-force reference has nothing to prune on between the pieces)
         # a DISCONNECTED pattern (ion pair, solute + solvent, fragment + a lone atom): a second piece grown from another seed, the pattern
         # is the induced subgraph on both (embeddings may put the pieces into different fragments of the source - or the same one)
         chosen = chosen[:3]
